@@ -385,7 +385,16 @@ class DiagLayer:
             except DecodeError:
                 # check if the message can be decoded as a global
                 # negative response for the service
+                request_prefix = b''
+                if service.request is not None:
+                    request_prefix = service.request.coded_const_prefix()
                 for gnr in self.global_negative_responses:
+                    # global negative responses only apply if their
+                    # constant prefix matches the message
+                    gnr_prefix = gnr.coded_const_prefix(request_prefix=request_prefix)
+                    if message[:len(gnr_prefix)] != gnr_prefix:
+                        continue
+
                     try:
                         decoded_gnr = gnr.decode(message)
                         if not isinstance(decoded_gnr, dict):
